@@ -89,3 +89,66 @@ func VerifCmapMutexDelete() {
 	vCmapRun(styles)
 	zzverif.Cover("cmap_mutex_delete_done")
 }
+
+// Two different keys (symbolic): exclusion is per key - two goroutines on the first key exclude each other while a
+// third one takes the second key although the first is held -, and the bookkeeping calls made while nobody holds or
+// waits agree with a plain set of keys: ItemCount counts the keys locked so far, Delete removes one, Clear all, and a
+// key can be locked again afterwards.
+//
+//verif:harness prop=C13 name=cmap_mutex_two_keys threads=4 sched=delay preempt=2 t_preempt=3 unwind=8 witness=lenient
+func VerifCmapMutexTwoKeys() {
+	mu := NewMutex[int]()
+	k1, k2 := zzverif.Int("key1"), zzverif.Int("key2")
+	zzverif.Assume(k1 != k2)
+	zzverif.Assert(mu.ItemCount() == 0, "item_count_agrees")
+	mon1, mon2 := &vRW{}, &vRW{}
+	// main holds key 1; another key is available meanwhile
+	mu.Lock(k1)
+	zzverif.Assert(mu.ItemCount() == 1, "held_key_is_counted")
+	other := false
+	done := make(chan struct{}, 3)
+	go func() {
+		if zzverif.Bool("second_key_reader") {
+			mu.RLock(k2)
+			mon2.readSection()
+			zzverif.Ghost(func() { other = true })
+			mu.RUnlock(k2)
+		} else {
+			mu.Lock(k2)
+			mon2.writeSection()
+			zzverif.Ghost(func() { other = true })
+			mu.Unlock(k2)
+		}
+		done <- struct{}{}
+	}()
+	zzverif.WaitQuiescent()
+	zzverif.Assert(other, "other_key_not_blocked_by_held_key")
+	<-done
+	mu.Unlock(k1)
+	// two contenders for key 1
+	for i := 0; i < 2; i++ {
+		go func() {
+			mu.Lock(k1)
+			mon1.writeSection()
+			mu.Unlock(k1)
+			done <- struct{}{}
+		}()
+	}
+	<-done
+	<-done
+	// (an implementation may or may not keep entries of released keys: only upper bounds are judged)
+	zzverif.Assert(mu.ItemCount() <= 2, "item_count_at_most_keys_used")
+	mu.Delete(k1)
+	zzverif.Assert(mu.ItemCount() <= 1, "deleted_key_not_counted")
+	mu.Delete(k1) // absent: no effect
+	zzverif.Assert(mu.ItemCount() <= 1, "deleted_key_not_counted")
+	mu.Lock(k1) // usable again after Delete
+	zzverif.Assert(mu.ItemCount() >= 1, "held_key_is_counted")
+	mu.Unlock(k1)
+	mu.Clear()
+	zzverif.Assert(mu.ItemCount() == 0, "clear_removes_everything")
+	mu.RLock(k2) // usable again after Clear
+	zzverif.Assert(mu.ItemCount() == 1, "held_key_is_counted")
+	mu.RUnlock(k2)
+	zzverif.Cover("cmap_mutex_two_keys_done")
+}
